@@ -93,7 +93,7 @@ def install():
 
 def table_fp(df):
     """Fingerprint of a whole table: column names in order + every value (float limbs)."""
-    h = hashlib.sha1(('|'.join(df.columns)).encode()).hexdigest()
+    h = hashlib.sha1(('|'.join('%s:%s' % (c, df[c].dtype) for c in df.columns)).encode()).hexdigest()       # names, order and dtypes of the columns
     vals = []
     for c in df.columns:
         vals.extend(float(x) for x in df[c].values)
@@ -109,6 +109,29 @@ def make_sigs(rng, shape, fs=64, n=160):
         x = np.sin(2 * np.pi * f * t + rng.uniform(0, 6)) * (1 + 0.5 * np.sin(2 * np.pi * rng.uniform(0.4, 1.0) * t)) + 0.3 * rng.standard_normal(n)
         out[idx] = np.round(x * 256) / 256
     return out
+
+
+ARRAY_VARIANTS = ['c_contiguous', 'fortran_order', 'strided_view', 'transposed_view', 'float32', 'int16']
+
+
+def vary(sigs, v):
+    """The same stack of signals as the user may hold it: another memory layout of the same values (Fortran order, a strided view of a larger
+    array, a transposed view of an array stored with the first two axes swapped), or another dtype (float32 with values that are not exactly
+    representable in fewer bits, int16 counts).  "All arrays" of the quantifiers includes these; every check compares with the per-signal
+    reference computed from sigs[i] of the very same array."""
+    v = v % len(ARRAY_VARIANTS)
+    if v == 1:
+        return np.asfortranarray(sigs)
+    if v == 2:
+        return np.repeat(sigs, 2, axis=-1)[..., ::2]
+    if v == 3:
+        ax = (1, 0) + tuple(range(2, sigs.ndim))
+        return np.ascontiguousarray(sigs.transpose(ax)).transpose(ax)
+    if v == 4:
+        return (sigs * 1.1).astype(np.float32)
+    if v == 5:
+        return np.round(sigs * 256).astype(np.int16)
+    return sigs
 
 
 def kw_variant(rng, i):
